@@ -199,7 +199,7 @@ PROPS = {
         "cone": ["Conc", "Close", "CloseDefs", "CloseLemmas", "CloseRun", "GeneratedSkel", "CloseSkel", "CloseSkelOk", "DecideLang", "StdCloseSrc", "ChanReadSrc"] + ["CloseShard%02d" % i for i in range(13)],
         "diagnose": "From Scrapli Require Import CloseSkel.\nFrom Coq Require Import String List.\nOpen Scope string_scope.\nEval vm_compute in show_failing.\n",
         "kernel_sample": {"quick": 4, "thorough": 12}, "kernel_maxlen": 1500,
-        "retry_sigs": r"(C07:leak|C07:hang)",
+        "retry_sigs": r"(C07:leak|C07:hang|C07:setup-failed$)",
         "timeout": {"quick": 1500, "thorough": 6000},
         "rule": "every case runs in a child process built with the race detector: generic / network (with and without an on-close hook) / NETCONF driver "
                 "over the simulated transport, connection armed in one of the states idle, reader parked in the read, EOF seen, error pending on the "
@@ -212,7 +212,8 @@ PROPS = {
                 "states for that scenario (CloseRun.run_outcomes), and the yield-point record must be accepted by the model as a possible record of one of "
                 "its runs (CloseRun.accepts_hooks: arrival semantics with lag).  The synchronisation skeleton of the modelled Go functions is re-extracted "
                 "from the source on every run and compared inside Coq with the skeleton of the model's control-flow graphs (Generated.sync_skeleton, "
-                "CloseSkel.skeleton_matches).  Non-trivial = every case.",
+                "CloseSkel.skeleton_matches).  A scenario whose connection cannot be set up (Close never called) is no observation: it is replayed "
+                "alone, and reported as a broken correspondence without a failing input if it still cannot be set up.  Non-trivial = every case.",
         "level_text": "Theorems C07_* over the protocol model (one instruction per synchronisation-relevant statement of Channel.read / Channel.Read / "
                       "Channel.Close / Transport.read / Transport.Close / netconf Driver.read / Driver.Close / sendRPC and its poller; Go semantics of "
                       "unbuffered channels, close, select, sync.Once, sync.Mutex): for every scenario in scope and EVERY schedule of any length no panic, "
